@@ -24,6 +24,25 @@ type c12Case struct {
 	Workers  int       `json:"workers"`
 	Versions []fxRules `json:"versions"`
 	Ops      []c12Op   `json:"ops"`
+	// Conc, when set, selects the concurrent sub-mode (Ops and Workers unused):
+	// lazy creation by several workers at the same moment, on Versions[0].
+	Conc *c12Conc `json:"conc,omitempty"`
+}
+
+// c12Conc: Goroutines workers are released by one start barrier and each asks
+// the factory for the samplers of Dests (in that order, rotated by the worker
+// index when Rotate), on a fresh SamplerFactory, Reps times. With Gate the
+// first worker that gets as far as registering the metrics of a new dynsampler
+// (metrics.Metrics.Register, called by refinery during creation) is held there
+// by the harness' Metrics double until the other workers are done or cannot
+// get on - which widens the window "one worker is mid-creation" without
+// touching refinery.
+type c12Conc struct {
+	Goroutines int      `json:"goroutines"`
+	Reps       int      `json:"reps"`
+	Gate       bool     `json:"gate"`
+	Rotate     bool     `json:"rotate,omitempty"`
+	Dests      []string `json:"dests"`
 }
 
 // destination names a worker may ask for. "west", "east" never have a sampler of their
@@ -203,6 +222,17 @@ func genC12(t *rapid.T) c12Case {
 		}
 		return c12Op{Op: "reload", To: rapid.IntRange(0, 2).Draw(t, "to")}
 	})
+	if rapid.IntRange(0, 9).Draw(t, "mode/concurrent") < 3 {
+		c.Versions = c.Versions[:1]
+		c.Conc = &c12Conc{
+			Goroutines: rapid.SampledFrom([]int{2, 4, 8}).Draw(t, "conc/goroutines"),
+			Reps:       c12ConcReps(),
+			Gate:       rapid.IntRange(0, 9).Draw(t, "conc/gate") < 7,
+			Rotate:     rapid.IntRange(0, 9).Draw(t, "conc/rotate") < 3,
+			Dests:      rapid.SliceOfNDistinct(rapid.SampledFrom(c12LookupDraw), 1, 3, rapid.ID[string]).Draw(t, "conc/dests"),
+		}
+		return c
+	}
 	c.Ops = rapid.SliceOfN(opGen, 1, 24).Draw(t, "ops")
 	return c
 }
@@ -298,6 +328,7 @@ func execC12(c c12Case) vkit.Result {
 	cur, epoch := 0, 0
 	var past []c12Obs
 	ptrViolation := false
+	modeSuffix := "" // "/concurrent-creation" in the concurrent sub-mode
 
 	collect := func(step int) ([]c12Obs, bool) {
 		var live []c12Obs
@@ -359,7 +390,7 @@ func execC12(c c12Case) vkit.Result {
 						class("two-workers-same-destination")
 						if !same {
 							ptrViolation = true
-							violate("C12/workers/not-shared/"+a.def.Type,
+							violate("C12/workers/not-shared"+modeSuffix+"/"+a.def.Type,
 								"step %d: workers %d and %d got different %s instances for destination %q %s (definition %s)",
 								step, a.worker, b.worker, a.def.Type, a.dest, a.path, a.def.canon())
 						}
@@ -418,6 +449,35 @@ func execC12(c c12Case) vkit.Result {
 		}
 	}
 
+	checkGauge := func(step int, live []c12Obs) {
+			// hook-free cross-check: the unique_dynsampler_count gauge
+			g, has := sut.gauge("unique_dynsampler_count")
+			distinct := map[any]bool{}
+			defsSeen := map[string]bool{}
+			positions := map[string]bool{}
+			for _, o := range live {
+				distinct[o.ptr] = true
+				defsSeen[o.dest+"\x00"+o.def.canon()] = true
+				positions[o.dest+"\x00"+o.path] = true
+			}
+			if !has {
+				violate("C12/gauge/absent", "step %d: unique_dynsampler_count never reported", step)
+			} else {
+				if int(g) != len(distinct) {
+					violate("C12/gauge/differs-from-instances-observed", "step %d: unique_dynsampler_count=%v but %d distinct instances are in use", step, g, len(distinct))
+				}
+				if !ptrViolation && (int(g) < len(defsSeen) || int(g) > len(positions)) {
+					violate("C12/gauge/outside-oracle-range", "step %d: unique_dynsampler_count=%v, the definitions in use need between %d and %d", step, g, len(defsSeen), len(positions))
+				}
+			}
+	}
+
+	if c.Conc != nil {
+		modeSuffix = "/concurrent-creation"
+		c12RunConcurrent(c, sut, &res, collect, judge, checkGauge, violate, class)
+		return res
+	}
+
 	for step, op := range c.Ops {
 		switch op.Op {
 		case "get":
@@ -432,26 +492,7 @@ func execC12(c c12Case) vkit.Result {
 			}
 			judge(step, live)
 			if created {
-				// hook-free cross-check: the unique_dynsampler_count gauge
-				g, has := sut.gauge("unique_dynsampler_count")
-				distinct := map[any]bool{}
-				defsSeen := map[string]bool{}
-				positions := map[string]bool{}
-				for _, o := range live {
-					distinct[o.ptr] = true
-					defsSeen[o.dest+"\x00"+o.def.canon()] = true
-					positions[o.dest+"\x00"+o.path] = true
-				}
-				if !has {
-					violate("C12/gauge/absent", "step %d: unique_dynsampler_count never reported", step)
-				} else {
-					if int(g) != len(distinct) {
-						violate("C12/gauge/differs-from-instances-observed", "step %d: unique_dynsampler_count=%v but %d distinct instances are in use", step, g, len(distinct))
-					}
-					if !ptrViolation && (int(g) < len(defsSeen) || int(g) > len(positions)) {
-						violate("C12/gauge/outside-oracle-range", "step %d: unique_dynsampler_count=%v, the definitions in use need between %d and %d", step, g, len(defsSeen), len(positions))
-					}
-				}
+				checkGauge(step, live)
 			}
 		case "reload":
 			to := op.To % len(c.Versions)
